@@ -8,6 +8,10 @@
    and the list allocation) must be equal.  Corpus, directed probes (one process each), random
    scripts, big maps / lists, bounded-exhaustive scripts, quote_key round trips, and the same
    through vnacal_property_* on the global and a per-calibration root.
+   Aliased copies (fix D71; op `copywithin D D2` = p = set_subtree(&root, D); s = get_subtree(root, D2);
+   vnaproperty_copy(p, s)): generated from the paths set earlier in the script with the source inside the
+   destination, the destination inside the source, both equal, disjoint, a missing source, a destination that the
+   call creates (prop_lib.gen_copywithin); directed probes; a bounded-exhaustive alphabet of their own.
    Hash table: coq/PropTree/HashModel.v (the table of a map as coded, any hash function; HashProofs.v:
    PropModel's association list is a sound abstraction of it) is run with h := crc32c on root-level
    scripts whose keys collide in CRC-32C (modulo 8/16/32 and modulo the real sizes 11/33/99, and with
@@ -25,7 +29,8 @@ import vplib
 import prop_lib as pl
 
 VFILES = ["PropTree/PropModel.v", "PropTree/DocSpec.v", "PropTree/PropProofs.v",
-          "PropTree/QuoteProofs.v", "PropTree/RebuildProofs.v", "PropTree/ApiProofs.v", "PropTree/WfProofs.v", "PropTree/DescGrammar.v", "PropTree/GrammarProofs.v",
+          "PropTree/QuoteProofs.v", "PropTree/RebuildProofs.v", "PropTree/ApiProofs.v", "PropTree/WfProofs.v",
+          "PropTree/CopyProofs.v", "PropTree/DescGrammar.v", "PropTree/GrammarProofs.v",
           "PropTree/HashModel.v", "PropTree/HashProofs.v",
           "Properties_C13.v"]
 
@@ -40,6 +45,17 @@ PROBES = [
                            ("set", b"[0]=y"), ("set", b"[2147483647+]=x"), ("get", b"[2147483647]")]),
     ("DP1_copy_empty_collections", [("setsub", b"a{}"), ("setsub", b"b[]"), ("set", b"c[1]#"), ("copyout", b"."),
                                     ("copyout", b"a"), ("copyout", b"b"), ("copyin", b"z.y")]),
+    # fix D71: source and destination of vnaproperty_copy in the same tree, every relative position
+    ("D71_copy_source_inside_destination", [("set", b"a.b.c=x"), ("set", b"a.b.l[1]=y"), ("set", b"a.k=z"),
+                                            ("copywithin", b"a", b"a.b"), ("keys", b"a"), ("copywithin", b".", b"a.l[1]"), ("get", b".")]),
+    ("D71_copy_destination_inside_source", [("set", b"a.b.c=x"), ("set", b"a.k=z"), ("copywithin", b"a.b", b"a"),
+                                            ("get", b"a.b.b.c"), ("copywithin", b"a.b.k[2]", b"."), ("count", b"a.b.k"),
+                                            ("copywithin", b"a.b.b.c.d", b"."), ("get", b"a.b.b.c.d.a.k")]),
+    ("D71_copy_same_disjoint_missing_created", [("set", b"a.b=x"), ("set", b"l[+]=y"), ("copywithin", b"a", b"a"), ("copywithin", b".", b"."),
+                                                ("copywithin", b"a.b", b"l"), ("copywithin", b"l", b"nokey"), ("type", b"l"),
+                                                ("copywithin", b"l[+]", b"l"), ("copywithin", b"l[0+]", b"."), ("copywithin", b"m[3].n", b"m"),
+                                                ("copywithin", b"a{}", b"a.b"), ("copywithin", b"l[]", b"a"), ("copywithin", b"a=", b"a"),
+                                                ("copywithin", b"l[2147483647]", b"a"), ("copywithin", b"a", b"a.b x"), ("keys", b".")]),
     ("strtol_narrowing", [("set", b"[4294967297]=x"), ("set", b"[99999999999999999999]=x"), ("set", b"[2147483648]=y"),
                           ("get", b"[4294967296]"), ("get", b"[18446744073709551617]")]),
     ("refused_set_leaves_tree_unchanged", [("set", b"a=1"), ("set", b"a{}=x"), ("type", b"a"), ("set", b"a[]"), ("type", b"a"),
@@ -119,6 +135,14 @@ SMALL_ALPHABET = [
 ]
 
 
+# bounded-exhaustive aliased copies: three ways of building a tree, every relative position of source and destination
+ALIAS_ALPHABET = [
+    ("set", b"a.b=x"), ("set", b"a.c[1]=y"), ("set", b"l[+]=z"), ("del", b"a.b"),
+    ("copywithin", b"a", b"a.b"), ("copywithin", b"a.b", b"a"), ("copywithin", b"a", b"a"), ("copywithin", b"a.c", b"l"),
+    ("copywithin", b"a.c[0]", b"zz"), ("copywithin", b"l[+]", b"."), ("copywithin", b"a.b[0+]", b"a"), ("copywithin", b".", b"a.c"),
+]
+
+
 def run(ctx):
     ctx.level = "proof"
     ctx.trusted_base = [
@@ -155,7 +179,7 @@ def run(ctx):
     def account(scripts, results_ok=True):
         for s in scripts:
             txt = pl.script_text(s)
-            ctx.count(hashlib.sha1(txt.encode()).hexdigest() if any(o[0] in ("set", "del", "setsub", "subset", "copyin")
+            ctx.count(hashlib.sha1(txt.encode()).hexdigest() if any(o[0] in ("set", "del", "setsub", "subset", "copyin", "copywithin")
                                                                    for o in s) else None, n=len(s))
         ctx.traces_validated += len(scripts)
 
@@ -180,10 +204,28 @@ def run(ctx):
 
     # ---------------------------------------------------------------- random scripts
     n_short, n_long = (4000, 150) if not thorough else (40000, 2000)
-    scripts = [pl.gen_script(ctx.rng, ctx.rng.randint(1, 40)) for _ in range(n_short)]
-    scripts += [pl.gen_script(ctx.rng, 200) for _ in range(n_long)]
+    alias_stats = {}
+    scripts = [pl.gen_script(ctx.rng, ctx.rng.randint(1, 40), stats=alias_stats) for _ in range(n_short)]
+    scripts += [pl.gen_script(ctx.rng, 200, stats=alias_stats) for _ in range(n_long)]
     ctx.sample({"random_script": [pl.op_show(o) for o in scripts[0]][:8]})
     batch("random", scripts)
+    # aliased copies (fix D71): scripts that build a tree and then copy inside it, every relative position in turn
+    alias_scripts = []
+    for i in range(300 if not thorough else 4000):
+        keys = ctx.rng.sample(pl.PLAIN_KEYS, 3) + ctx.rng.sample(pl.HOSTILE_KEYS, ctx.rng.randint(0, 2))
+        used, s_ = [], []
+        for _ in range(ctx.rng.randint(2, 6)):
+            s_.append(("set", pl.gen_set_arg(ctx.rng, keys, used)))
+        for j in range(ctx.rng.randint(1, 4)):
+            s_.append(pl.gen_copywithin(ctx.rng, keys, used, alias_stats, position=pl.COPY_POSITIONS[(i + j) % len(pl.COPY_POSITIONS)]))
+            if ctx.rng.random() < 0.5:
+                s_.append(("getsub", pl.gen_query_arg(ctx.rng, keys, used)))
+        alias_scripts.append(s_)
+    ctx.sample({"aliased_copy_script": [pl.op_show(o) for o in alias_scripts[0]][:8]})
+    batch("aliased-copy", alias_scripts)
+    ctx.extra["aliased_copy_positions"] = dict(alias_stats)
+    ctx.obligation("tie:aliased copies generated in every relative position (%s)" % ", ".join(pl.COPY_POSITIONS),
+                   all(alias_stats.get(p_, 0) > 0 for p_ in pl.COPY_POSITIONS), str(alias_stats))
     big = [pl.gen_bigmap_script(ctx.rng, n) for n in ((25, 70, 150) if not thorough else (23, 25, 67, 70, 150, 300, 700))]
     big += [pl.gen_biglist_script(ctx.rng, n) for n in ((20, 70) if not thorough else (9, 17, 20, 33, 70, 200))]
     batch("big-collections", big)
@@ -229,7 +271,9 @@ def run(ctx):
     else:
         ex = list(exhaustive_scripts(SMALL_ALPHABET[:14], 3))
     batch("exhaustive", ex)
-    ctx.extra["exhaustive_scripts"] = len(ex)
+    ex_alias = list(exhaustive_scripts(ALIAS_ALPHABET, 3 if not thorough else 4))
+    batch("exhaustive-aliased-copy", ex_alias)
+    ctx.extra["exhaustive_scripts"] = len(ex) + len(ex_alias)
 
     # ---------------------------------------------------------------- quote_key addresses exactly that key
     keys = list(pl.HOSTILE_KEYS) + list(pl.PLAIN_KEYS)
